@@ -671,6 +671,7 @@ func (a *Agent) startConnectivityChecks(isControlling bool, remoteUfrag, remoteP
 		a.remoteUfrag = remoteUfrag
 		a.remotePwd = remotePwd
 		a.setSelector()
+		a.updatePairRoles()
 
 		a.startedFn()
 
@@ -1733,6 +1734,16 @@ func (a *Agent) handleRoleConflict(msg *stun.Message, local, remote Candidate, r
 	} else {
 		a.isControlling.Store(!a.isControlling.Load())
 		a.setSelector()
+		a.updatePairRoles()
+	}
+}
+
+// updatePairRoles makes the existing pairs follow the agent's current role: pair
+// priorities are a function of the role (RFC 8445 Section 6.1.2.3), so pairs formed
+// before the role was known or before a role switch have to be recomputed.
+func (a *Agent) updatePairRoles() {
+	for _, p := range a.checklist {
+		p.iceRoleControlling = a.isControlling.Load()
 	}
 }
 
